@@ -247,12 +247,15 @@ class C01(PropOracle):
             self.v(w, f"batch {rec['N']} lists a job twice: {d['jobs']}", "dup-in-batch")
         for j in d["jobs"]:
             pl = [p for p in o.placed[j] if p[3] == o.epoch]
-            if len(pl) > 1:
+            # a refused attempt followed by an accepted retry of the same batch is one placement
+            if len({p[0] for p in pl}) > 1 or sum(1 for p in pl if p[1]) > 1:
                 self.v(w, f"job {j} placed in batches {[p[0] for p in pl]} (handed to the HPC twice)",
                        f"double-placement")
         N = rec["N"]
-        if N is not None and o.batchN[N] > 1:
-            self.v(w, f"batch identifier {N} used {o.batchN[N]} times", "batch-id-reused")
+        if N is not None:
+            same = [r for r in o.sbatch_log if r["N"] == N and r["epoch"] == o.epoch]
+            if sum(1 for r in same if r["accepted"]) > 1 or len({tuple(r["jobs"]) for r in same}) > 1:
+                self.v(w, f"batch identifier {N} used for {len(same)} submissions {[r['jobs'] for r in same]}", "batch-id-reused")
 
     def on_fwrite(self, w, vp, d):
         rel = d["rel"]
@@ -1278,3 +1281,78 @@ class C12(PropOracle):
 
 
 ORACLES["C12"] = C12
+
+
+class C11(PropOracle):
+    """A submitter that dies or errors mid-round cannot cause double submission; results stay on
+    disk; later invocations continue consistently or refuse."""
+
+    prop = "C11"
+
+    def __init__(self):
+        self.c01 = C01()
+        self.c01.prop = "C11"
+        self.c02 = C02()
+        self.c02.prop = "C11"
+        self.c09 = C09()
+        self.c09.prop = "C11"
+        self.ever = {}  # job -> set of (rc, status) ever seen on disk
+        self.round0 = {}
+
+    def digest(self):
+        return repr(sorted((str(k), sorted(map(str, v))) for k, v in self.ever.items())) + repr(sorted(self.round0.items()))
+
+    def on_sbatch(self, w, vp, d):
+        self.c01.on_sbatch(w, vp, d)
+
+    def on_fwrite(self, w, vp, d):
+        self.c01.on_fwrite(w, vp, d)
+
+    def on_launch(self, w, vp, d):
+        self.c01.on_launch(w, vp, d)
+        self.c02.on_launch(w, vp, d)
+
+    def _scan(self, w):
+        for n, rr in disk_rows(w).items():
+            s = self.ever.setdefault(n, set())
+            for r in rr:
+                s.add((r[0], r[1]))
+
+    def on_transition(self, w, vp, d):
+        if any(r.endswith(".csv") for r in w.written):
+            self._scan(w)
+
+    def on_actor_round(self, w, vp, d):
+        self.round0[vp.name] = len(w.obs.sbatch_log)
+
+    def on_actor_round_end(self, w, vp, d):
+        # a later invocation that acted (handed a batch to the HPC) must leave a consistent status
+        n0 = self.round0.pop(vp.name, None)
+        if n0 is None:
+            return
+        if any(r["accepted"] for r in w.obs.sbatch_log[n0:]) and d["code"] == 0:
+            self.c09.prev = None
+            self.c09.observe(w, vp)
+
+    def on_end(self, w, vp, d):
+        rows = disk_rows(w)
+        for n, seen in self.ever.items():
+            have = {(r[0], r[1]) for r in rows.get(n, [])}
+            lost = seen - have
+            if lost:
+                self.v(w, f"result {sorted(lost)} of job {n} was on disk earlier and is gone at the end (faults: {w.data.get('faults')})", "result-lost")
+        faults = w.data.get("faults") or []
+        if faults and all(f[1].startswith("cmd:squeue") and f[2] == "fail-all" for f in faults):
+            # a transient status-query failure: the run must end exactly as the fault-free one
+            c = w.obs.cluster or {}
+            if not c.get("is_complete"):
+                self.v(w, f"after a failed status query ({faults}) the submission did not complete", "squeue-fault-no-completion")
+            else:
+                res = read_json(w.rootp + "results.json") or {}
+                ref = reference(w.scen["jobs"], w.scen["exit_codes"])
+                got = {r["name"]: classify(r["return_code"], r["status"]) for r in res.get("results", [])}
+                if got != ref or res.get("missing_jobs"):
+                    self.v(w, f"after a failed status query the results {got} / missing {res.get('missing_jobs')} differ from the fault-free outcome {ref}", "squeue-fault-outcome")
+
+
+ORACLES["C11"] = C11
